@@ -375,28 +375,91 @@ func ruleWidth(r *Run, p *Prog) {
 	if !r.Anchor(len(readers) >= 1, "WIDTH", "the function accumulating the item argument") {
 		return
 	}
-	var u64 *ssa.Function
+	u64 := map[*ssa.Function]bool{}
 	for _, f := range readers {
 		rt := f.Signature.Results().At(0).Type().Underlying().(*types.Basic)
 		ok := rt.Kind() == types.Uint64
 		if ok {
-			u64 = f
+			u64[f] = true
 		}
 		r.Ob("WIDTH", FnName(f)+"/result-type", p.Pos(f.Pos()), ok, true, tern(ok, "item argument carried as uint64 (the encoder writes up to 64 unsigned bits)", "the item argument is accumulated as "+rt.Name()+": values of 2^63 and above (or beyond the type's range) are decoded as different numbers"))
 	}
-	if u64 == nil {
+	if len(u64) == 0 {
 		return
+	}
+	// a function that hands on what such a reader returned, still as uint64 (the reader may be a
+	// shared `bigEndianUint(pb)` below the function that parses the head)
+	for changed := true; changed; {
+		changed = false
+		for _, f := range p.ModFns {
+			if pkgRel(f) != cborRel || u64[f] || f.Blocks == nil || f.Signature.Results().Len() != 1 {
+				continue
+			}
+			if b, ok := f.Signature.Results().At(0).Type().Underlying().(*types.Basic); !ok || b.Kind() != types.Uint64 {
+				continue
+			}
+			hands := false
+			eachInstr(f, func(b *ssa.BasicBlock, i int, in ssa.Instruction) {
+				ret, ok := in.(*ssa.Return)
+				if !ok {
+					return
+				}
+				var visit func(v ssa.Value, depth int)
+				visit = func(v ssa.Value, depth int) {
+					if depth > 4 {
+						return
+					}
+					switch x := v.(type) {
+					case *ssa.Call:
+						if u64[staticCallee(&x.Call)] {
+							hands = true
+						}
+					case *ssa.Phi:
+						for _, e := range x.Edges {
+							visit(e, depth+1)
+						}
+					}
+				}
+				visit(ret.Results[0], 0)
+			})
+			if hands {
+				u64[f] = true
+				changed = true
+			}
+		}
 	}
 	// in cbor2JsonOneObject the integer arms format the reader's result without narrowing
 	direct := false
+	one = p.View(one, "keep-u64-readers", func(g *ssa.Function) bool { return u64[g] })
 	eachInstr(one, func(b *ssa.BasicBlock, i int, in ssa.Instruction) {
 		c, ok := in.(*ssa.Call)
-		if !ok || staticCallee(&c.Call) != u64 {
+		if !ok || !u64[staticCallee(&c.Call)] {
 			return
 		}
 		direct = true
+		// conversions on the way to the number formatter (a converted copy used as a length or
+		// count elsewhere is not the printed value)
+		var reachesFormatter func(v ssa.Value, depth int) bool
+		reachesFormatter = func(v ssa.Value, depth int) bool {
+			if depth > 4 {
+				return false
+			}
+			for _, ref := range referrersOf(v) {
+				switch x := ref.(type) {
+				case *ssa.Call:
+					if o := calleeObj(&x.Call); o != nil && o.Pkg() != nil && o.Pkg().Path() == "strconv" {
+						return true
+					}
+				case *ssa.Convert, *ssa.BinOp, *ssa.UnOp, *ssa.Phi, *ssa.ChangeType:
+					if reachesFormatter(x.(ssa.Value), depth+1) {
+						return true
+					}
+				}
+			}
+			return false
+		}
 		for _, ref := range referrersOf(c) {
-			if cv, ok := ref.(*ssa.Convert); ok && isIntLike(cv.Type()) {
+			if cv, ok := ref.(*ssa.Convert); ok && isIntLike(cv.Type()) && reachesFormatter(cv, 0) {
 				okc := valuePreserving(c.Type(), cv.Type(), p.sizes)
 				r.Ob("WIDTH", FnName(one)+"/no-narrowing", p.Pos(cv.Pos()), okc, true, tern(okc, "no narrowing", "the decoded integer is converted to "+types.TypeString(cv.Type(), shortQual)+" before it is printed: large values come out as different numbers"))
 			}
@@ -413,57 +476,157 @@ func ruleWidth(r *Run, p *Prog) {
 	r.Ob("WIDTH", FnName(one)+"/unsigned-formatter", p.Pos(one.Pos()), fmtOK, true, tern(fmtOK, "printed with strconv.AppendUint", "integers are not printed with an unsigned 64-bit formatter"))
 }
 
+// textSources: readNBytes and the private thin wrappers around it (`readByteString`: consume the
+// head, then return readNBytes(src, n) as it is): a call to any of them yields input text.
+func cborTextSources(p *Prog) map[*ssa.Function]bool {
+	out := map[*ssa.Function]bool{}
+	rnb := p.Func(cborRel, "readNBytes")
+	if rnb == nil {
+		return out
+	}
+	out[rnb] = true
+	for changed := true; changed; {
+		changed = false
+		for _, f := range p.ModFns {
+			if pkgRel(f) != cborRel || out[f] || f.Parent() != nil || f.Blocks == nil {
+				continue
+			}
+			if f.Signature.Results().Len() != 1 || !isByteSlice(f.Signature.Results().At(0).Type()) {
+				continue
+			}
+			ok, n := true, 0
+			eachInstr(f, func(b *ssa.BasicBlock, i int, in ssa.Instruction) {
+				if ret, isRet := in.(*ssa.Return); isRet {
+					n++
+					c, isC := ret.Results[0].(*ssa.Call)
+					if !isC || !out[staticCallee(&c.Call)] {
+						ok = false
+					}
+				}
+			})
+			if ok && n > 0 {
+				out[f] = true
+				changed = true
+			}
+		}
+	}
+	return out
+}
+
+// ruleDecoderEscape: bytes read from the input reach the JSON output only escaped, after a
+// certified scan, or on the verbatim channel that only the tag decoder may use. The string
+// decoders are found by what they do, not by name: every function of the package that obtains
+// input text (readNBytes or a thin wrapper) and returns a byte slice is classified as
+//   - quoting decoder: it delegates to the escaper (decodeStringComplex) — its raw whole-text copy
+//     must follow a complete certified scan; a boolean parameter may select the verbatim channel;
+//   - verbatim decoder: it hands the text on raw and never escapes — every caller must belong to
+//     the tag decoder;
+//   - neither (the text is only re-encoded, e.g. base64): outside this rule.
 func ruleDecoderEscape(r *Run, p *Prog) {
 	cx := p.Func(cborRel, "decodeStringComplex")
 	if !r.Anchor(cx != nil, "ESCAPE", "cbor.decodeStringComplex") {
 		return
 	}
 	cxOrig := cx
-	rnb := p.Func(cborRel, "readNBytes")
-	ruleEscaperComplex(r, p, "ESCAPE", p.View(cx, "", nil), 1, nil)
-	for _, name := range []string{"decodeString", "decodeUTF8String"} {
-		f := p.Func(cborRel, name)
-		if !r.Anchor(f != nil, "ESCAPE", "cbor."+name) {
-			continue
-		}
-		// private scan helpers ("index of the first byte that needs escaping") are part of the decoder
-		f = p.View(f, "keep-complex-read", func(g *ssa.Function) bool { return g == cxOrig || g == rnb })
-		// the text: result of the fixed-size read
-		var text ssa.Value
-		eachInstr(f, func(b *ssa.BasicBlock, i int, in ssa.Instruction) {
-			if c, ok := in.(*ssa.Call); ok {
-				if sc := staticCallee(&c.Call); sc != nil && canonFn(sc) == "readNBytes" {
-					text = c
-				}
-			}
-		})
-		if text == nil {
-			r.Ob("ESCAPE", FnName(f)+"/text", p.Pos(f.Pos()), false, true, "payload read not found")
-			continue
-		}
-		// raw copies under noQuotes == true are the documented verbatim channel
-		exempt := func(c *ssa.Call) bool {
-			return hasCmp(necessaryCmps(f, c), func(op token.Token, x, y ssa.Value) bool {
-				b, ok := constBool(y)
-				_, isP := x.(*ssa.Parameter)
-				return ok && isP && ((op == token.EQL && b) || (op == token.NEQ && !b))
-			})
-		}
-		ruleEscaperFastOn(r, p, "ESCAPE", f, text, nil, cxOrig, exempt)
+	srcs := cborTextSources(p)
+	if !r.Anchor(len(srcs) > 0, "ESCAPE", "cbor.readNBytes") {
+		return
 	}
-	// who asks for the verbatim channel
-	ds := p.Func(cborRel, "decodeString")
+	ruleEscaperComplex(r, p, "ESCAPE", p.View(cx, "", nil), 1, nil)
 	tagSet := map[*ssa.Function]bool{}
 	if tg := p.Func(cborRel, "decodeTagData"); tg != nil {
 		tagSet = p.exclusiveHelpers(tg)
 	}
-	if ds != nil {
+	keep := func(g *ssa.Function) bool { return g == cxOrig || srcs[g] }
+	var cands []*ssa.Function
+	for _, f := range p.ModFns {
+		if pkgRel(f) != cborRel || f.Parent() != nil || f.Blocks == nil || f == cxOrig || srcs[f] {
+			continue
+		}
+		if f.Signature.Results().Len() != 1 || !isByteSlice(f.Signature.Results().At(0).Type()) {
+			continue
+		}
+		direct := false
+		eachInstr(f, func(b *ssa.BasicBlock, i int, in ssa.Instruction) {
+			if c, ok := in.(*ssa.Call); ok && srcs[staticCallee(&c.Call)] {
+				direct = true
+			}
+		})
+		if direct {
+			cands = append(cands, f)
+		}
+	}
+	sort.Slice(cands, func(i, j int) bool { return FnName(cands[i]) < FnName(cands[j]) })
+	nQuoting := 0
+	flagged := map[*ssa.Function]bool{}  // quoting decoders with a verbatim flag parameter
+	verbatim := map[*ssa.Function]bool{} // decoders that never escape
+	for _, orig := range cands {
+		// private scan helpers ("index of the first byte that needs escaping") are part of the decoder
+		f := p.View(orig, "keep-complex-read", keep)
+		var text ssa.Value
+		hasCx := false
+		eachInstr(f, func(b *ssa.BasicBlock, i int, in ssa.Instruction) {
+			if c, ok := in.(*ssa.Call); ok {
+				if sc := staticCallee(&c.Call); srcs[sc] {
+					text = c
+				} else if sc == cxOrig {
+					hasCx = true
+				}
+			}
+		})
+		if text == nil {
+			continue
+		}
+		// does the text leave raw (whole-text append, or returned as it is)?
+		raw := false
+		for _, ref := range referrersOf(text) {
+			switch x := ref.(type) {
+			case *ssa.Return:
+				raw = true
+			case *ssa.Call:
+				if sp, _ := appendElems(x); sp == text {
+					raw = true
+				}
+			}
+		}
+		switch {
+		case hasCx:
+			nQuoting++
+			// raw copies under <bool parameter> == true are the documented verbatim channel
+			exempt := func(c *ssa.Call) bool {
+				return hasCmp(necessaryCmps(f, c), func(op token.Token, x, y ssa.Value) bool {
+					b, ok := constBool(y)
+					_, isP := x.(*ssa.Parameter)
+					if ok && isP && ((op == token.EQL && b) || (op == token.NEQ && !b)) {
+						flagged[orig] = true
+						return true
+					}
+					return false
+				})
+			}
+			ruleEscaperFastOn(r, p, "ESCAPE", f, text, nil, cxOrig, exempt)
+		case raw:
+			verbatim[orig] = true
+			r.Ob("ESCAPE", FnName(orig)+"/verbatim-decoder", p.Pos(orig.Pos()), true, false, "hands the payload on unescaped: only the tag decoder may call it")
+		}
+	}
+	if nQuoting < 2 {
+		r.Fail("ESCAPE", "quoting-decoders", "-", fmt.Sprintf("only %d decoder functions that read text and delegate to the escaper were found (byte strings and text strings expected)", nQuoting))
+	}
+	// who asks for the verbatim channel
+	for ds := range flagged {
+		bi := -1
+		for i, par := range ds.Params {
+			if b, ok := par.Type().Underlying().(*types.Basic); ok && b.Kind() == types.Bool {
+				bi = i
+			}
+		}
 		for cf, sites := range callersOf(p, ds, "*") {
 			for _, s := range sites {
-				if s == nil || len(s.Call.Args) != 2 {
+				if s == nil || bi < 0 || len(s.Call.Args) <= bi {
 					continue
 				}
-				b, isC := constBool(s.Call.Args[1])
+				b, isC := constBool(s.Call.Args[bi])
 				if !isC {
 					r.Ob("ESCAPE", FnName(cf)+"/verbatim", p.Pos(s.Pos()), false, true, "noQuotes is not a constant at this call")
 					continue
@@ -477,24 +640,46 @@ func ruleDecoderEscape(r *Run, p *Prog) {
 			}
 		}
 	}
+	for vf := range verbatim {
+		for cf, sites := range callersOf(p, vf, "*") {
+			for _, s := range sites {
+				if s == nil {
+					continue
+				}
+				ok := tagSet[cf]
+				r.Ob("ESCAPE", FnName(cf)+"/verbatim", p.Pos(s.Pos()), ok, true, tern(ok, "verbatim payload requested by the tag decoder (embedded JSON / octets that are re-formatted)", "a byte string is requested verbatim (unescaped, unquoted) outside the tag decoder"))
+			}
+		}
+	}
 	// in the tag decoder, verbatim octets reach the output only through formatting (net, hex table) or as embedded JSON
-	ruleTagOctets(r, p)
+	rawFns := map[*ssa.Function]bool{}
+	for f := range flagged {
+		rawFns[f] = true
+	}
+	for f := range verbatim {
+		rawFns[f] = true
+	}
+	ruleTagOctets(r, p, rawFns)
 }
 
-// ruleTagOctets: results of decodeString(src, true) in decodeTagData are returned as they are
-// only in the embedded-JSON arm; otherwise they are converted (net.IP/HardwareAddr String, hex table).
-func ruleTagOctets(r *Run, p *Prog) {
+// ruleTagOctets: results of the verbatim channel (decodeString(src, true) / a verbatim decoder) in
+// decodeTagData are returned as they are only in the embedded-JSON arm; otherwise they are
+// converted (net.IP/HardwareAddr String, hex table).
+func ruleTagOctets(r *Run, p *Prog, rawFns map[*ssa.Function]bool) {
 	tag := p.Func(cborRel, "decodeTagData")
-	ds := p.Func(cborRel, "decodeString")
-	if tag == nil || ds == nil {
+	if tag == nil || len(rawFns) == 0 {
 		return
 	}
 	ej, _ := cborConst(p, "additionalTypeEmbeddedJSON")
-	dsOrig := ds
-	tag = p.View(tag, "keep-decodeString", func(g *ssa.Function) bool { return g == dsOrig })
+	var names []string
+	for f := range rawFns {
+		names = append(names, f.Name())
+	}
+	sort.Strings(names)
+	tag = p.View(tag, "keep-raw:"+strings.Join(names, ","), func(g *ssa.Function) bool { return rawFns[g] })
 	eachInstr(tag, func(b *ssa.BasicBlock, i int, in ssa.Instruction) {
 		c, ok := in.(*ssa.Call)
-		if !ok || staticCallee(&c.Call) != ds {
+		if !ok || !rawFns[staticCallee(&c.Call)] {
 			return
 		}
 		// is this value returned directly or appended raw? (through the result phis of inlined helpers)
